@@ -17,13 +17,33 @@ OPS = {"lt": operator.lt, "le": operator.le, "gt": operator.gt, "ge": operator.g
 TY_OF_FMT = {"b": "b", "i": "i", "d": "d", "s": "s", "q": "q", "l": "l"}
 
 
+_BASE = None
+
+
+def _cleanup_base():
+    if _BASE:
+        shutil.rmtree(_BASE, ignore_errors=True)
+
+
+import atexit  # noqa: E402
+
+atexit.register(_cleanup_base)
+
+
 class Written:
     """A synthetic output on disk (removed on close)."""
 
     def __init__(self, out, nout=1, extra_outputs=()):
         self.out = out
         self.nout = nout
-        self.dir = tempfile.mkdtemp(prefix="osyverif_ramses_")
+        # every output of a process is written under the *same* path (an output directory that is rewritten between two
+        # loads, or a relative path after a chdir): nothing may be remembered per path string
+        global _BASE
+        if _BASE is None:
+            _BASE = tempfile.mkdtemp(prefix="osyverif_ramses_")
+        self.dir = os.path.join(_BASE, "run")
+        shutil.rmtree(self.dir, ignore_errors=True)
+        os.makedirs(self.dir)
         self.records = ramses.write_output(out, self.dir, nout, extra_outputs)
         self.by_bytes = {}
         tag = "%05d" % nout
@@ -35,6 +55,8 @@ class Written:
 
     def close(self):
         shutil.rmtree(self.dir, ignore_errors=True)
+        if _BASE and not os.listdir(_BASE):
+            pass  # the base directory is removed at exit (atexit below)
 
     def __enter__(self):
         return self
